@@ -104,6 +104,14 @@ static bool run(Case &c, bool va, Result &r, std::string &skip) {
             int64_t n = 0;
             if (maxPolygonToCellsSizeExperimental(&lp.gp, c.res, c.flags & 3, &n)) { skip = "sizefn"; return false; }
             if (n > 300000) { skip = "size"; return false; }
+            // c.k = capacity mode: 0 announced size; 1 one slot fewer than the cells there are; 2 zero slots; 3 half of them (the E_MEMORY_BOUNDS path)
+            if (c.k > 0) {
+                std::vector<uint64_t> full((size_t)n, 0);
+                int64_t cnt = 0;
+                if (polygonToCellsExperimental(&lp.gp, c.res, c.flags, n, full.data()) == E_SUCCESS)
+                    for (uint64_t x : full) if (x) cnt++;
+                if (cnt > 0) n = c.k == 1 ? cnt - 1 : c.k == 2 ? 0 : cnt / 2;
+            }
             r.out.assign((size_t)n, 0);
             r.code = va ? va_polygonToCellsExperimental(&lp.gp, c.res, c.flags, n, r.out.data()) : polygonToCellsExperimental(&lp.gp, c.res, c.flags, n, r.out.data());
             break;
@@ -165,6 +173,8 @@ static void check(const Case &cc) {
     if (N >= 4) COUNT("allocations>=4");
     if (N >= 8) COUNT("allocations>=8");
     if (base.code != E_SUCCESS) COUNT("error_path_input");
+    if (base.code == E_MEMORY_BOUNDS) COUNT("error_path.E_MEMORY_BOUNDS(capacity too small)");
+    if (c.fn == COMPACT && base.code == E_SUCCESS) { bool toBase = false; for (uint64_t x : base.out) if (x && ref::res_of(x) == 0) toBase = true; if (toBase) COUNT("compact.reaches_resolution_0"); }
     static Counter faults("fault_points_enumerated");
     faults.n += (uint64_t)(2 * N);
 }
@@ -180,6 +190,22 @@ static Case draw() {
             c.res = r;
             int blocks = ri(1, 4);
             std::vector<uint64_t> v;
+            if (rpick({4, 1}) == 1) {  // complete descendants of several whole base cells: compaction runs down to resolution 0
+                r = c.res = ri(1, 2);
+                blocks = 0;
+                int k = rpick({1, 1}) == 0 ? ri(1, 12) : (rpick({3, 1}) == 0 ? ri(6, 30) : 122);
+                uint64_t s0 = r64();
+                std::vector<int> bcs(122);
+                for (int i = 0; i < 122; i++) bcs[(size_t)i] = i;
+                for (size_t i = 122; i > 1; i--) std::swap(bcs[i - 1], bcs[(size_t)(splitmix(s0) % i)]);
+                int zero[16] = {0};
+                for (int i = 0; i < k; i++) {
+                    uint64_t anc = ref::make_cell(0, bcs[(size_t)i], zero);
+                    int64_t n = ref::children_count(anc, r);
+                    for (int64_t j = 0; j < n; j++) v.push_back(ref::child_at(anc, r, j));
+                }
+                if (rpick({2, 1}) == 1 && !v.empty()) v.erase(v.begin() + (long)(r64() % v.size()));
+            }
             for (int b = 0; b < blocks; b++) {
                 int d = ri(1, std::min(r, 3));
                 uint64_t anc = rpick({2, 1}) ? gen::cellRes(r - d, {3, 3, 1, 1, 0, 0, 1}).h : gen::pentagonAt(r - d, ri(0, 11));
@@ -217,6 +243,7 @@ static Case draw() {
             c.flags = c.fn == POLYFILL ? 0u : (uint32_t)ri(0, 3);
             if (rpick({8, 1}) == 1) c.flags = (uint32_t)ri(4, 40);  // bad flags: error path
             if (rpick({12, 1}) == 1) c.g.outer.clear();              // empty outer loop
+            if (c.fn == POLYFILL_EXP) c.k = rpick({3, 1, 1, 1});     // capacity mode (see run)
             break;
         }
     }
@@ -253,7 +280,11 @@ static void enumerate(const std::string &tier, int shard, int nshards, const std
                     c.g.clat = ctr.lat; c.g.clng = ctr.lng; c.g.loc = 1;
                     for (int v = 0; v < cb.numVerts; v++) c.g.outer.push_back(cb.verts[v]);
                     c.fn = POLYFILL; c.flags = 0; emit(c);
-                    for (uint32_t m = 0; m < 4; m++) { c.fn = POLYFILL_EXP; c.flags = m; emit(c); c.fn = MAXSIZE_EXP; emit(c); }
+                    for (uint32_t m = 0; m < 4; m++) {
+                        c.fn = POLYFILL_EXP; c.flags = m;
+                        for (int cap = 0; cap < 4; cap++) { c.k = cap; emit(c); }
+                        c.k = 0; c.fn = MAXSIZE_EXP; emit(c);
+                    }
                 }
             }
         }
